@@ -501,12 +501,13 @@ impl Check for RwaCheck {
             // C01 for the RWA flavour: the token's own mint / burn / transfer events replay to every balance
             if got {
                 for ev in w.last_events().iter().filter(|x| x.contract == taddr) {
+                    let bad = || violation("events.replay_balances", "malformed", i, format!("event {} of {s:?} does not name its parties / amount as documented", ev.name));
                     match ev.name.as_str() {
-                        "mint" => *ev_bal.entry(w.actor_of(&ev.topics[0]).unwrap()).or_insert(0) += ev.data["amount"],
-                        "burn" => *ev_bal.entry(w.actor_of(&ev.topics[0]).unwrap()).or_insert(0) -= ev.data["amount"],
+                        "mint" => *ev_bal.entry(w.party(ev, 0).ok_or_else(bad)?).or_insert(0) += ev.amt("amount").ok_or_else(bad)?,
+                        "burn" => *ev_bal.entry(w.party(ev, 0).ok_or_else(bad)?).or_insert(0) -= ev.amt("amount").ok_or_else(bad)?,
                         "transfer" => {
-                            *ev_bal.entry(w.actor_of(&ev.topics[0]).unwrap()).or_insert(0) -= ev.data["amount"];
-                            *ev_bal.entry(w.actor_of(&ev.topics[1]).unwrap()).or_insert(0) += ev.data["amount"];
+                            *ev_bal.entry(w.party(ev, 0).ok_or_else(bad)?).or_insert(0) -= ev.amt("amount").ok_or_else(bad)?;
+                            *ev_bal.entry(w.party(ev, 1).ok_or_else(bad)?).or_insert(0) += ev.amt("amount").ok_or_else(bad)?;
                         }
                         _ => {}
                     }
